@@ -63,6 +63,7 @@ func genC06(p *Plan, r *RNG) {
 		p.Ops = append(p.Ops, Op{Actor: c, Kind: "refresh", At: gap(int64(r.Range(1, 2000)) * ms), A: OpArgs{Lifetime: 30}})
 	}
 	p.QuietNS = 40 * sec
+	addFaults(p, r, faultLevel(r))
 }
 
 // genC07: permission / channel timeouts.
@@ -124,4 +125,5 @@ func genC07(p *Plan, r *RNG) {
 		}
 	}
 	p.QuietNS = 10 * sec
+	addFaults(p, r, faultLevel(r))
 }
